@@ -16,6 +16,8 @@ import (
 const c19Policy = `
 path "rb/*" { capabilities = ["create","read","update","delete","list"] }
 path "auth/token/create" { capabilities = ["update"] }
+path "auth/token/create-orphan" { capabilities = ["update", "sudo"] }
+path "auth/token/create/*" { capabilities = ["update"] }
 `
 
 type c19Task struct {
@@ -38,6 +40,7 @@ func newC19Env(t *testing.T, transactional bool) *c19Env {
 	tc.mount("rb", "recbe", nil)
 	tc.mount("other", "recbe", nil)
 	tc.writePolicy("c19", c19Policy)
+	tc.mustOK(tc.req(logical.UpdateOperation, "auth/token/roles/c19orphan", tc.root, map[string]any{"orphan": true, "allowed_policies": "default,c19"}), "orphan role")
 	return &c19Env{tc: tc, hub: hub}
 }
 
@@ -58,11 +61,15 @@ func (e *c19Env) request(kind string, i int, tok string) rr {
 		return tc.req(logical.ReadOperation, "auth/token/lookup-self", tok, nil)
 	case "child":
 		return tc.req(logical.UpdateOperation, "auth/token/create", tok, map[string]any{"ttl": "10m"})
+	case "child-orphan":
+		return tc.req(logical.UpdateOperation, "auth/token/create-orphan", tok, map[string]any{"ttl": "10m", "policies": []string{"default"}})
+	case "child-role":
+		return tc.req(logical.UpdateOperation, "auth/token/create/c19orphan", tok, map[string]any{"ttl": "10m"})
 	}
 	panic(kind)
 }
 
-var c19Kinds = []string{"echo", "kvread", "kvwrite", "denied", "creds", "lookup", "child"}
+var c19Kinds = []string{"echo", "kvread", "kvwrite", "denied", "creds", "lookup", "child", "child-orphan", "child-role"}
 
 func (e *c19Env) accessors() map[string]bool {
 	r := e.tc.req(logical.ListOperation, "auth/token/accessors/", e.tc.root, nil)
@@ -191,7 +198,7 @@ func TestVerif_C19_UseLimit(t *testing.T) {
 		}
 		tsOK := 0
 		for _, tk := range tasks {
-			if (tk.kind == "lookup" || tk.kind == "child") && tk.ok {
+			if (tk.kind == "lookup" || strings.HasPrefix(tk.kind, "child")) && tk.ok {
 				tsOK++
 			}
 		}
@@ -203,7 +210,7 @@ func TestVerif_C19_UseLimit(t *testing.T) {
 		if sequential {
 			// the first n requests consume the uses; exactly those among them that the policy allows succeed
 			for i, tk := range tasks {
-				want := i < n && tk.kind != "denied" && tk.kind != "child"
+				want := i < n && tk.kind != "denied" && !strings.HasPrefix(tk.kind, "child")
 				if tk.kind == "creds" && i == n-1 {
 					// final use: the leased secret must not be returned
 					if tk.res.resp != nil && tk.res.resp.Secret != nil && tk.res.resp.Secret.LeaseID != "" {
@@ -217,7 +224,7 @@ func TestVerif_C19_UseLimit(t *testing.T) {
 			}
 		}
 		for i, tk := range tasks {
-			if tk.kind == "child" && tk.ok {
+			if strings.HasPrefix(tk.kind, "child") && tk.ok {
 				rec.Violation(rt, "child-created", describe(), "request %d created a child token with a use-limited token", i)
 			}
 			if tk.res.err != nil && strings.Contains(tk.res.err.Error(), "PANIC") {
